@@ -941,6 +941,40 @@ func c15Worker(w *W) {
 		// each abstract configuration is rendered twice with independent spellings
 		for rep := 0; rep < 2; rep++ {
 			m := c.render(r)
+			errClass, errDetail := c.errClass, c.errDetail
+			if errClass == "" && !mutate && r.IntN(4) == 0 {
+				// a syntactically broken inline expression is bad configuration too (the parser is shared by all 'name!' keys of a
+				// process: whatever state it keeps between calls, a broken expression must still be rejected the 100th time)
+				var inl []string
+				for k := range m {
+					if strings.HasSuffix(k, "!") {
+						inl = append(inl, k)
+					}
+				}
+				sort.Strings(inl)
+				if len(inl) > 0 {
+					k := inl[r.IntN(len(inl))]
+					v := strings.TrimRight(m[k], " \t\n")
+					if strings.HasSuffix(v, "}") {
+						switch r.IntN(3) {
+						case 0:
+							m[k] = v[:len(v)-1]
+							errDetail = "inline expression without its closing brace"
+						case 1:
+							m[k] = v + "}"
+							errDetail = "inline expression with a surplus closing brace"
+						default:
+							if i := strings.IndexByte(v, '{'); i >= 0 {
+								m[k] = v[:i+1] + ",," + v[i+1:]
+								errDetail = "inline expression starting with ',,'"
+							}
+						}
+						if errDetail != "" {
+							errClass = "malformed-inline"
+						}
+					}
+				}
+			}
 			desc := ""
 			if mutate {
 				desc = c15mutate(r, m)
@@ -960,21 +994,21 @@ func c15Worker(w *W) {
 					}
 				}
 			}
-			cs := map[string]any{"index": ci, "rendering": rep, "config": m, "err_class": c.errClass, "err_detail": c.errDetail, "mutation": desc}
+			cs := map[string]any{"index": ci, "rendering": rep, "config": m, "err_class": errClass, "err_detail": errDetail, "mutation": desc}
 			w.Journal("C15 case %d/%d %v", ci, rep, m)
 			probePublished = map[string]*VProbe{}
 			var err error
 			pv, st := catch(func() { err = log.Refresh(m) })
 			w.Eval(1)
 			if pv != nil {
-				cls := c.errClass
+				cls := errClass
 				if cls == "" {
 					cls = "valid"
 				}
 				if mutate {
 					cls = "mutated"
 				}
-				w.Violate("C15:refresh-panic:"+cls, fmt.Sprintf("Refresh panicked (%s %s %s): %v\n%s", c.errClass, c.errDetail, desc, pv, trunc(st, 1500)), cs)
+				w.Violate("C15:refresh-panic:"+cls, fmt.Sprintf("Refresh panicked (%s %s %s): %v\n%s", errClass, errDetail, desc, pv, trunc(st, 1500)), cs)
 				catch(log.Destroy)
 				continue
 			}
@@ -987,14 +1021,14 @@ func c15Worker(w *W) {
 				continue
 			}
 			switch {
-			case c.errClass == "buffer-too-small":
+			case errClass == "buffer-too-small":
 				// a lower bound on the queue size is the library's choice, not part of the statement: totality only
 				w.Distinct("totality|buffer-too-small")
-			case c.errClass != "" && err == nil:
-				w.Violate("C15:error-not-reported:"+c.errClass, fmt.Sprintf("Refresh returned nil for a configuration with %s (%s)", c.errClass, c.errDetail), cs)
-			case c.errClass == "" && err != nil:
+			case errClass != "" && err == nil:
+				w.Violate("C15:error-not-reported:"+errClass, fmt.Sprintf("Refresh returned nil for a configuration with %s (%s)", errClass, errDetail), cs)
+			case errClass == "" && err != nil:
 				w.Violate("C15:valid-config-rejected", fmt.Sprintf("Refresh rejected a well-formed configuration: %s", trunc(err.Error(), 600)), cs)
-			case c.errClass == "":
+			case errClass == "":
 				if c.verify(w, cs) {
 					types := map[string]bool{}
 					for _, a := range c.appenders {
@@ -1018,14 +1052,14 @@ func c15Worker(w *W) {
 					w.Count("plugins_value_checked", int64(len(c.appenders)+len(c.loggers)))
 				}
 			default:
-				w.Distinct("err|" + c.errClass)
+				w.Distinct("err|" + errClass)
 				w.Count("erroneous_configs_rejected", 1)
 			}
 			if pv2, st2 := catch(log.Destroy); pv2 != nil {
 				w.Violate("C15:destroy-panic", fmt.Sprintf("Destroy panicked: %v\n%s", pv2, trunc(st2, 1200)), cs)
 			}
 			if ci < 1 && rep == 0 {
-				w.Sample(map[string]any{"config": m, "err_class": c.errClass})
+				w.Sample(map[string]any{"config": m, "err_class": errClass})
 			}
 		}
 	}
